@@ -5,7 +5,7 @@
    This file contains only statements, each closed by `exact <lemma>`, Print Assumptions, and Examples
    (concrete reachable states, by vm_compute) showing that the interesting protocol states do occur. *)
 From Coq Require Import NArith List Bool Permutation.
-From MiV Require Import Model.TFree Proofs.TFreeBase Proofs.TFreeInv Proofs.TFreeStep5 Proofs.TFreeProofs.
+From MiV Require Import Model.TFree Proofs.TFreeBase Proofs.TFreeInv Proofs.TFreeStep5 Proofs.TFreeProofs Proofs.TFreeCheck.
 Import ListNotations.
 Local Open Scope N_scope.
 
@@ -57,6 +57,13 @@ Theorem C02_no_double_handout : forall s, reachable s -> exists c, s = Ok c /\
         forall u, In b (th_held (gett c u)) -> exists k, ch = COp (OpFree b k) /\ u = t).
 Proof. exact C02_no_double_handout_P. Qed.
 Print Assumptions C02_no_double_handout.
+
+(* the boolean checker that the correspondence checks evaluate on states of the real allocator (schedule-
+   lockstep replay) is sound: a state that passes inv_b satisfies the whole inductive invariant, from which
+   all the statements above follow for that state *)
+Theorem tfree_inv_b_sound : forall c, inv_b c = true -> Inv c /\ InvT c.
+Proof. exact inv_b_sound. Qed.
+Print Assumptions tfree_inv_b_sound.
 
 (* ---- the theorems are not vacuous: concrete schedules reach the interesting states ---- *)
 Definition b00 : bid := (0, 0).
